@@ -83,7 +83,26 @@ def run(E: Engine, rep: Report, tier: str) -> dict:
             decisive = {x for x in test_roots if x.startswith(("call:", "self.")) or "vstack" in x or "pdist" in x}
             ok = arg is not None and bool(decisive) and decisive <= arg_roots
             rep.check(ok, "SIB", f"BaseDevice.{fname}|culprits-from-deciding-mask", f"`{kw}=` derives from the same mask/helper as the decision ({sorted(decisive)})", f"the offending list `{norm(arg) if arg is not None else '?'}` is not computed from what decides the rejection: decision uses {sorted(decisive)}, list uses {sorted(arg_roots)}", E.where(f, r))
-    rep.floor("SIB", 2)
+    # the offenders reported by RadiusError are *all* the violating atoms: the comprehension ranges over every index
+    # of the deciding mask (np.where(m)[0] / np.nonzero(m)[0] / np.flatnonzero(m)), not over its first row
+    from .. import sym as _sym
+    from .symutil import S as _S, is_ as _is, sh as _sh, unobj as _unobj
+
+    frd = E.fn(f"{DEV}._validate_radial_distance")
+    for l in _S(E, frd).logged("raise"):
+        exc = l.value[1] if l.value is not None and l.value[0] == "raise" else None
+        inv = dict(exc[3]).get("invalid") if exc is not None and exc[0] == "call" else None
+        inv = _unobj(inv) if inv is not None else None
+        ok = False
+        m_ = None
+        if inv is not None and inv[0] == "comp" and len(inv[3]) == 1:
+            it = inv[3][0][0]
+            for pat_ in ("np.where(Q_m)[0]", "np.nonzero(Q_m)[0]", "np.flatnonzero(Q_m)", "np.argwhere(Q_m)[:, 0]", "np.argwhere(Q_m).flatten()", "np.argwhere(Q_m).ravel()"):
+                m_ = m_ or _is(it, pat_)
+            decided = any(_is(x, "np.any(Q_m)", m_) is not None for x in _sym.conj_of(l.cond)) if m_ else False
+            ok = m_ is not None and decided
+        rep.check(ok, "SIB", "BaseDevice._validate_radial_distance|all-offenders-reported", "invalid = [ids[i] for i in <all indices of the deciding mask>]", f"the offending atoms are taken from `{_sh(inv[3][0][0], 80) if inv is not None and inv[0] == 'comp' else _sh(inv, 80)}`: this must enumerate every index where the deciding mask holds (np.where(mask)[0]); e.g. np.argwhere(mask)[0] is only the first offender", E.where(frd, l.node))
+    rep.floor("SIB", 3)
 
     # --------------------------------------------------------- DISPATCH
     vr = E.fn(DEV + ".validate_register")
@@ -106,7 +125,23 @@ def run(E: Engine, rep: Report, tier: str) -> dict:
     callees = {c.innermost().short for _n, _i, e in E.flow(init).all_events() for c, _m in e.callees}
     for need in ("BaseDevice.validate_register", "BaseDevice.validate_layout", "BaseDevice.validate_layout_filling"):
         rep.check(need in callees, "DISPATCH", f"Sequence.__init__|calls-{need.split('.')[-1]}", "sequence creation validates the register against the device", f"Sequence.__init__ no longer calls {need}", E.where(init))
-    rep.floor("DISPATCH", 9)
+    # a register is installed in a sequence only after the device validated it (build() of a mappable register)
+    SEQQ = "pulser.sequence.sequence.Sequence"
+    n_inst = 0
+    for mname, fs in E.cls(SEQQ).methods.items():
+        for g in fs:
+            if g.kind == "overload" or mname == "__init__" or "_register" not in norm(g.node):
+                continue
+            Sg = _S(E, g, inline=False)
+            for l in Sg.logged("store"):
+                if l.target is None or l.target[0] != "attr" or l.target[2] != "_register":
+                    continue
+                n_inst += 1
+                val = [c for c in Sg.log[: Sg.log.index(l)] if c.kind == "call" and c.target is not None and c.target[0] == "attr" and c.target[2] == "validate_register" and c.value[2] and c.value[2][0] == l.value and set(_sym.conj_of(c.cond)) <= set(_sym.conj_of(l.cond))]
+                rep.check(bool(val), "DISPATCH", f"{g.short}|register-installed-after-validate_register", "the register stored in the sequence was passed to device.validate_register first", f"{g.short} stores `{_sh(l.value, 60)}` as the sequence's register without a preceding device.validate_register(<that register>): a register the device refuses (too many atoms, too close, outside the radius) can be installed", E.where(g, l.node))
+    if n_inst < 1:
+        rep.error("no register installation outside Sequence.__init__ found (expected Sequence._set_register)")
+    rep.floor("DISPATCH", 10)
 
     # ---------------------------------------------------------- CLOSURE
     # device-aware layout generation: enough traps for the maximum filling (n <= int(traps * filling) needs traps >= ceil(n / filling))
